@@ -216,6 +216,7 @@ def tap_detector_class(base):
 
     class Tap(base):
         def action_at_attach_server(self, node, server, individual):
+            self._log.last_cust = individual
             self._log.emit("att", node.id_number, server.id_number, individual.id_number)
             return base.action_at_attach_server(self, node, server, individual)
 
@@ -225,6 +226,7 @@ def tap_detector_class(base):
 
         def action_at_detatch_server(self, server):
             c = server.cust
+            self._log.last_cust = c
             self._log.emit("det", server.node.id_number, server.id_number, getattr(c, "id_number", None))
             return base.action_at_detatch_server(self, server)
 
